@@ -768,10 +768,10 @@ def run_mapping(env, a):
         key = ("mapping", a["mid"], a["iso"])
         mp = env._basis.get(key)
         if mp is None:
-            mp = MappingIsoparametric(m, m.elem(), m.bndelem) if (a["iso"] or not s["affine"]) else MappingAffine(m)
+            mp = MappingIsoparametric(m, m.elem(), m.bndelem) if (a["iso"] or not s["affine"] or s["kind"] not in ("line", "tri", "tet")) else MappingAffine(m)
             env._basis[key] = mp
     else:
-        mp = MappingIsoparametric(m, m.elem(), m.bndelem) if (a["iso"] or not s["affine"]) else MappingAffine(m)
+        mp = MappingIsoparametric(m, m.elem(), m.bndelem) if (a["iso"] or not s["affine"] or s["kind"] not in ("line", "tri", "tet")) else MappingAffine(m)
     # point sets with the *same bytes* but different shapes: (d, 2, 1) per-cell vs (d, 2) shared
     base = np.linspace(0.15, 0.35, 2 * d).reshape(d, 2)
     tv = {"int32-two": np.array([1, 0], dtype=np.int32), "int64-one": np.array([1], dtype=np.int64),
@@ -1280,7 +1280,7 @@ def _pooled_mapping(env, a):
     from skfem.mapping import MappingIsoparametric, MappingAffine
     m = env.mesh(a["mid"])
     s = env.specs.meshes[a["mid"]]
-    mk = (lambda: MappingIsoparametric(m, m.elem(), m.bndelem) if (a["iso"] or not s["affine"]) else MappingAffine(m))
+    mk = (lambda: MappingIsoparametric(m, m.elem(), m.bndelem) if (a["iso"] or not s["affine"] or s["kind"] not in ("line", "tri", "tet")) else MappingAffine(m))
     if not env.pooled:
         return mk()
     key = ("mapping", a["mid"], a["iso"])
